@@ -27,7 +27,7 @@ PAIRS = [(a, b) for i, a in enumerate(SOURCES) for b in SOURCES[i:]
          and (a, b) != ('app-resource', 'route-resource')]
 REQUIRED_REACH = ['planted:reserved-app-resource', 'planted:reserved-route-resource', 'planted:reserved-url-binding',
                   'planted:mw-without-next', 'planted:next-in-endpoint', 'planted:next-in-render',
-                  'planted:context-outside-render', 'control:accepted', 'planted-in-prefix-binding'] + \
+                  'planted:context-outside-render', 'control:accepted', 'planted-in-prefix-binding', 'planted-in-factory-made-render', 'planted-mw-without-any-parameter'] + \
                  ['planted:conflict:%s+%s' % p for p in PAIRS]
 NSHARDS = 16
 PROV_ATTR = {'mw-request': ('request', 'provides'), 'mw-endpoint': ('endpoint', 'endpoint_provides'),
@@ -142,9 +142,11 @@ def plant(rng, host, what):
             for a in ('provides', 'endpoint_provides', 'render_provides'):
                 m[a] = [x for x in m[a] if x != 'zz']
         f = mw[phase]
-        variant = rng.pick(['dropped', 'second', 'renamed'])
+        variant = rng.pick(['dropped', 'second', 'renamed', 'no-params'])
         rest = [p for p in f['params'] if p[0] != 'next']
-        if variant == 'dropped' and rest:
+        if variant == 'no-params':
+            f['params'] = []           # a function that takes nothing at all
+        elif variant == 'dropped' and rest:
             f['params'] = rest
         elif variant == 'second' and rest:
             f['params'] = [rest[0], ['next', rest[0][1] if rest[0][1] in ('def',) else 'req']] + rest[1:]
@@ -161,6 +163,9 @@ def plant(rng, host, what):
         kind = rng.pick(['req', 'def', 'kwreq', 'kwdef'])
         f['params'] = f['params'] + [['next', kind]]
         label += ':' + kind
+        if key == 'render' and rng.chance(0.5):
+            cfg['route']['render_via_factory'] = True       # the render function is the product of a render factory
+            label += ':via-factory'
     elif what == 'context-outside-render':
         where = rng.pick(['request', 'endpoint', 'ep'])
         kind = rng.pick(['req', 'kwreq'])
@@ -205,6 +210,10 @@ def run_shard(sh, spec):
             sh.hit('planted:' + what)
             if 'url@prefix' in label:
                 sh.hit('planted-in-prefix-binding')
+            if 'via-factory' in label:
+                sh.hit('planted-in-factory-made-render')
+            if 'no-params' in label:
+                sh.hit('planted-mw-without-any-parameter')
             drive(sh, PROPERTY, cfg, 'planted', requests=(), nontrivial=True)
             if rng.chance(0.15):
                 sh.hit('control:accepted')
